@@ -163,7 +163,7 @@ impl CanonicalRequest {
                     }
                     let ghost qsb = str_bytes(qs@);
                     let ghost pqb = str_bytes(pq@);
-//@ before 1 `body = Bytes::from("");`
+//@ after 1 `})?;`
                     proof {
                         assert(is_canon_query(qmap(query_parameters@), qsb));
                         assert(parts.uri.built_from == Some(pqb));
@@ -173,18 +173,18 @@ impl CanonicalRequest {
     proof {
         if d6_ok(parts0) && folds(parts0, options) {
             let bq = str_bytes(spec_decode(body_encoding(parts0)->Some_0, body0.data)->Some_0);
-            assert(body.data =~= Seq::<u8>::empty());
-            assert(parts.method == parts0.method && parts.headers == parts0.headers && parts.other == parts0.other);
-            assert(qmap(query_parameters@) == map_of(parse_query(url_query(parts0))->Some_0 + parse_query(bq)->Some_0));
-            assert(folded_uri_ok(qmap(query_parameters@), str_bytes(canonical_path@), parts.uri));
+            assert(body.data =~= Seq::<u8>::empty()); //# C12 C15 name=folded_body_is_emptied
+            assert(parts.method == parts0.method && parts.headers == parts0.headers && parts.other == parts0.other); //# C15 name=folding_leaves_method_headers_version_alone
+            assert(qmap(query_parameters@) == map_of(parse_query(url_query(parts0))->Some_0 + parse_query(bq)->Some_0)); //# C12 C10 C01 name=merged_parameters_are_url_then_body
+            assert(folded_uri_ok(qmap(query_parameters@), str_bytes(canonical_path@), parts.uri)); //# C15 C12 name=returned_uri_carries_the_merged_parameters
         }
     }
 //@ before 1 `Ok((<NL>            CanonicalRequest {`
     proof {
         if d6_ok(parts0) && folds(parts0, options) {
-            assert(str_bytes(body_sha256@) == str_bytes(spec_hex(spec_sha256(Seq::<u8>::empty()))));
-            assert(hmap(headers@) == map_of(header_pairs(parts0.headers.entries)));
-            assert(str_bytes(canonical_path@) == canon_path(parts0.uri.path, options.s3)->Some_0);
+            assert(str_bytes(body_sha256@) == str_bytes(spec_hex(spec_sha256(Seq::<u8>::empty())))); //# C12 C01 name=folded_payload_hash_is_that_of_an_empty_body
+            assert(hmap(headers@) == map_of(header_pairs(parts0.headers.entries))); //# C11 C01 name=headers_of_the_request_as_received
+            assert(str_bytes(canonical_path@) == canon_path(parts0.uri.path, options.s3)->Some_0); //# C09 C01 name=path_of_the_request_as_received
             assert(body_encoding(parts0) is Some);
             assert(spec_decode(body_encoding(parts0)->Some_0, body0.data) is Some);
             assert(parse_query(str_bytes(spec_decode(body_encoding(parts0)->Some_0, body0.data)->Some_0)) is Some);
